@@ -1,4 +1,5 @@
 """C18 - xsd_check=False switches off structural checking and nothing else."""
+import itertools
 import xml.etree.ElementTree as ET
 
 from hypothesis import strategies as st
@@ -23,7 +24,9 @@ RULE = ('(a) unchecked parents of ANY of the 441 classes with Hypothesis-drawn h
         'checking: children added to the first are not visible in the second, which accepts, rejects and serialises '
         'exactly like an element checked from the start; for every (type, text-valued child) the child created by '
         'xml_x = <value> under an unchecked parent has the same xsd_check, refuses children and serialises like the '
-        'one created under a checked parent; (e) nothing else is switched off: for all 441 classes, '
+        'one created under a checked parent; for every checked element (one or two children by add_child, all '
+        'combinations for alphabets <=12) whose own to_string answers differently with intelligent_choice on and '
+        'off, a checked measure holding it below an unchecked note answers exactly as the element alone; (e) nothing else is switched off: for all 441 classes, '
         'every sample value (valid and invalid, from the lexical oracle) and every attribute x sample value gets the '
         'same verdict (accepted / same exception type) from an unchecked as from a checked element, undeclared dot '
         'names are refused alike.  Non-trivial = a child sequence the checked twin rejects, or a mixed tree of depth>=3; distinct by '
@@ -292,6 +295,42 @@ def nested_checked(el, wrappers, ops):
     return None
 
 
+def build_by_adds(el, names):
+    r = call(fresh, el, True)
+    if not r.ok:
+        return None
+    for n in names:
+        call(r.value.add_child, stub(n))
+    return r.value
+
+
+def ic_passes_through(el, names):
+    """a checked measure holding an UNCHECKED note that holds a checked element G: whatever G answers to
+    to_string(intelligent_choice=ic) on its own (ok / exception type) is what the measure answers - the unchecked
+    node in between switches off nothing but its own structural check.  Only run for G where ic makes a difference."""
+    s = schema()
+    t = s.element_type[el]
+    inp = {'mode': 'ic-through-unchecked', 'element': el, 'names': list(names)}
+    alone = {}
+    for ic in (False, True):
+        g = build_by_adds(el, names)
+        if g is None:
+            return None, 'unbuildable'
+        alone[ic] = call(g.to_string, intelligent_choice=ic).verdict()[0]
+    if alone[False] == alone[True]:
+        return None, 'ic-insensitive'
+    for ic in (False, True):
+        g = build_by_adds(el, names)
+        root, mid = fresh('measure', True), fresh('note', False)
+        mid.add_child(g)
+        root.add_child(mid)
+        got = call(root.to_string, intelligent_choice=ic).verdict()[0]
+        if got != alone[ic]:
+            return F('unchecked-node-changes-descendant-check', t, dict(inp, intelligent_choice=ic),
+                     {'measure > unchecked note > element': got, 'element alone': alone[ic]}), 'compared'
+    return None, 'compared'
+
+
 def exempt_child(el, word, pos, junk):
     """checked root el holding valid word; child at pos is an UNCHECKED element stuffed with junk children"""
     s = schema()
@@ -338,6 +377,8 @@ def replay_case(rec):
         return run_unchecked(inp['element'], inp['ops'])[0]
     if m == 'identity':
         return byte_identity(inp['element'], tuple(inp['word']))[0]
+    if m == 'ic-through-unchecked':
+        return ic_passes_through(inp['element'], inp['names'])[0]
     if m == 'shortcut-child':
         return shortcut_child(inp['element'], inp['child'])[0]
     if m == 'nothing-else':
@@ -374,6 +415,14 @@ def run_shard(ctx, shard, acc):
                 if f:
                     acc.fail(f, raise_=False)
         for t, els in shard['types']:
+            al = s.alphabet(t)
+            for names in itertools.chain(((a,) for a in al), itertools.product(al, repeat=2) if len(al) <= 12 else ()):
+                f, status = ic_passes_through(els[0], names)
+                acc.count('ic-through-' + status)
+                if status == 'compared':
+                    acc.case({'mode': 'ic-through-unchecked', 'element': els[0], 'names': list(names)}, True, 3)
+                if f:
+                    acc.fail(f, raise_=False)
             for a in s.alphabet(t):
                 f, status = shortcut_child(els[0], a)
                 acc.count('shortcut-child-' + status)
